@@ -29,7 +29,8 @@ def rebuild(c):
     return r
 
 
-def check(p, name, c):
+def check(p, name, c, build_src=None):
+    """build_src: source that builds `c` the way the checked object was built (history included)."""
     if not c.inputs:
         return
     orig = rebuild(c)
@@ -102,7 +103,7 @@ def check(p, name, c):
         p.violation(
             f"into_bench:{problems[0].split(' ')[0]}:{types}",
             f"{circ.describe(orig)} blocks={[(n, b.gates) for n, b in orig.blocks.items()]}: {problems[:3]}",
-            REPLAY_PRELUDE + circ.circ_src(orig) + "\nimport itertools\n" + circ.circ_src(orig, "o") +
+            REPLAY_PRELUDE + (build_src or circ.circ_src(orig)) + "\nimport itertools\n" + circ.circ_src(orig, "o") +
             "\nbefore=circ.snapshot(o)\nc.into_bench()\nbad=[]\n"
             f"ALLOWED={sorted(ALLOWED)!r}\n"
             "if list(c.inputs)!=list(o.inputs) or list(c.outputs)!=list(o.outputs): bad.append('interface')\n"
@@ -125,6 +126,23 @@ def check(p, name, c):
             "if circ.snapshot(o)!=before: bad.append('graphviz modified original')\n"
             "print(bad)\nsys.exit(1 if bad else 0)\n",
         )
+
+
+def rename_in_block_then_convert(p, name, c0):
+    """A gate that into_bench rewrites is renamed while it sits in a block; the helper gates of the later conversion
+    must still land in that block (the same object is used throughout: nothing is rebuilt in between)."""
+    if not c0.inputs or not c0.blocks:
+        return
+    obj = rebuild(c0)
+    cands = [g for b in obj.blocks.values() for g in b.gates if g in obj.gates and obj.gates[g].gate_type.name in ("LT", "LEQ", "GT", "GEQ", "ALWAYS_TRUE", "ALWAYS_FALSE")]
+    if not cands:
+        return
+    g = cands[0]
+    try:
+        obj.rename_gate(g, "renamed_" + g)
+    except Exception:  # noqa: BLE001
+        return
+    check(p, name + "/renamed-in-block", obj, build_src=circ.circ_src(c0) + f"\nc.rename_gate({g!r}, {'renamed_' + g!r})\n")
 
 
 def history_check(p, name, c):
@@ -224,6 +242,7 @@ def unit(p, item, tier, seed):
             check(p, name, c)
             history_check(p, name, rebuild(lemma_circuits_by_name(name)))
             history_replace_inputs(p, name, rebuild(lemma_circuits_by_name(name)))
+            rename_in_block_then_convert(p, name, lemma_circuits_by_name(name))
         for name, c in circgen.feature_circuits() + circgen.large_circuits(seed):
             check(p, "feature:" + name, c)
         # canary: a wrong rewrite (GT -> AND without the NOT) must be refuted by the same query
@@ -247,6 +266,7 @@ def unit(p, item, tier, seed):
                 history_check(p, f"seeded[{s}:{i}]", c2)
             if i % 3 == 1:
                 history_replace_inputs(p, f"seeded[{s}:{i}]", c2)
+            rename_in_block_then_convert(p, f"seeded[{s}:{i}]", c2)
 
 
 def run(rep, tier, seed, only=None):
